@@ -175,7 +175,42 @@ def replay_program(arg):
                 res['samples'].append({'space': rec['space'], 'program': fu.shape(f), 'sigma': case['sig'],
                                        'x': case['x'], 'zstar_from_TLC': case['z'], 'observed_p': info.get('p'),
                                        'F(p)': info.get('Fp')})
+    if rec['k'] <= 1:
+        chain_prox(built[(0, LAYOUTS[seed % len(LAYOUTS)])], [c_ for c_ in cases if c_['sk'] == 's'], rnd, res, sp, f,
+                   2 if per_case == 1 else 6)
     return res
+
+
+def chain_prox(B, cases, rnd, res, sp, f, ncases):
+    """Derived-of-derived: f -> f* -> f** -> f*** as the library builds them; at every node that offers a proximal
+    the C07 clauses apply to the node's own values (the node f** denotes the program Conj(Conj(f)), so the
+    certificate of the specification applies as well)."""
+    import copy
+    node, prog = B.func, f
+    step = max(1, len(cases) // ncases)
+    for depth in (1, 2, 3):
+        try:
+            node = node.convex_conj
+        except Exception:
+            return
+        prog = mkf('Conj', args=[prog])
+        WB = copy.copy(B)
+        WB.func, WB.f, WB.factory = node, prog, None
+        for case in cases[::step][:ncases]:
+            xv = fu.frv(case['x'])
+            ev, info = fu.observe_prox(WB, case['sig'], 's', xv, None, rnd, style=0, want_idem=False)
+            if ev is None:
+                break
+            ev['tag'] = 'replay'
+            res['counts'].append(([prog, sp['kind'], case['sig'], case['x']], True))
+            detail = {'stage': 'replay', 'sp': sp, 'f': prog, 'sig': case['sig'], 'sk': 's', 'x': case['x'],
+                      'layout': B.layout, 'chain': depth,
+                      'observed': {'p': info.get('p'), 'Fp': info.get('Fp'), 'better': info.get('better'), 'err': info['err']}}
+            for clause, extra in judge(WB, ev, info, None, sp, prog, 's'):
+                extra = dict(extra, sigma='scalar', layout=LAYNAME[B.layout], node='f' + '*' * depth)
+                res['viol'].append((fu.signature(sp, prog, clause, extra), detail))
+            if not info['err']:
+                res['events'].append((ev, detail))
 
 
 # ------------------------------------------------------------------ driver beyond the TLC constants
@@ -321,6 +356,22 @@ def opaque_recipes():
         return fu.Opaque('proximal_composition', 'rotation', X, g * R,
                          factory=S.proximal_composition(g.proximal, R, 1.0))
     out.append(('proximal_composition', 'rotation', comp))
+    # user-built functionals and the default conjugate object: every node of the chain f -> f* -> f** -> f***
+    from . import c08
+    for ui, (uname, uopt, umk) in enumerate(c08.user_recipes()):
+        for k in range(4):
+            def node(umk=umk, k=k, uname=uname, uopt=uopt):
+                X, nodes, refs = umk()
+                if k >= len(nodes):
+                    return None
+                nd = nodes[k]
+                try:
+                    nd(X.zero())
+                    func = nd                      # the node evaluates itself (simple_functional: fcall)
+                except Exception:
+                    func = refs[k]                 # default conjugate object: values of the class-based conjugate
+                return fu.Opaque(uname, '%s node %d' % (uopt, k), X, func, factory=nd.proximal)
+            out.append((uname, '%s node %d' % (uopt, k), node))
     return out
 
 
@@ -329,6 +380,8 @@ def opaque_program(arg):
     name, option, mk = opaque_recipes()[idx]
     res = {'events': [], 'viol': [], 'counts': [], 'classes': set(), 'noprox': 0}
     B = mk()
+    if B is None:
+        return res
     res['classes'] = fu.class_names(B.func) | {name}
     rnd = _rnd(name + option, seed)
     N = B.N
